@@ -1956,7 +1956,13 @@ func (fr *Frame) bindLocals(vars map[string]Val, st *State, li *loopInfo) {
 				}
 				if v.P != nil && v.P.Kind == PCell {
 					if cv, ok := st.cells[v.P.Cell]; ok {
-						if _, dup := vars[t.Comment]; !dup {
+						isParam := false
+						for _, prm := range fr.fn.Params {
+							if prm.Name() == t.Comment {
+								isParam = true // a parameter captured by a closure lives in a cell: the cell is the variable
+							}
+						}
+						if _, dup := vars[t.Comment]; !dup || isParam {
 							vars[t.Comment] = cv
 						}
 					}
